@@ -18,7 +18,7 @@ LEVEL_NOTE = ('Lean kernel; gen_periodic translator (evaluates the property bodi
               '.pyx literal tables); Spec/Iupac.lean written by hand; floats compared as micro-units.')
 TECHNIQUE = 'Lean 4 decide +kernel theorems over regenerated periodic-table data + exhaustive API correspondence'
 HAS_DRIVER = True
-EXTRA_MODULES = ['Model.C18Atom']
+EXTRA_MODULES = ['Model.C18Atom', 'Proofs.C18History', 'Proofs.C18Matcher']
 FINDINGS_MODULE = 'ChythonModel.Findings.C18'
 RULE = ('exhaustive: every Element subclass x every tabulated isotope x charge -4..4 x radical flag x every predicate '
         'of Props/C18.lean re-evaluated on the live classes through the public API; a case is non-trivial when it '
@@ -34,7 +34,18 @@ _state = {}
 def generate(ctx):
     path, rows, pack_iso, unpack_iso, unpack_elems = gen_periodic.generate()
     _state.update(rows=rows, pack_iso=pack_iso, unpack_iso=unpack_iso, unpack_elems=unpack_elems)
-    return [path]
+    paths = [path]
+    # the matcher clause is stated over C09's executable layout model: its constants are re-extracted from isomorphism.py here too
+    # (a changed statement skeleton leaves the last constants in place; the BITS correspondence then decides)
+    from ..gen import gen_bitlayout, gen_query
+    try:
+        paths.append(gen_query.generate())   # element flags used by C08's `notMetal` (imported by the layout model)
+    except Exception as e:
+        _state['gen_query_error'] = f'{type(e).__name__}: {e}'
+    p, info = gen_bitlayout.generate()
+    _state['layout'] = info
+    paths.append(p)
+    return paths
 
 
 def predicates(sym):
